@@ -134,6 +134,45 @@ def parallel(jobs, width):
     return res
 
 
+def transient_sidecar(final, evs):
+    """Shape of the recorded finding C19-F3: every loaded shard whose sidecar state differs from the disk's is
+    at the disk's shard version and carries a sidecar generation that existed only between two sidecar-less
+    states of that file (written, then removed again, nothing after), i.e. absent when the scan took the
+    file's times, present while the shard was loaded, absent again when the scan re-checked the times."""
+    rnd = final.get("round")
+    disk = {(x["r"], x["f"]): x for x in final["files"]}
+    hist = {}
+    for x in evs:
+        if x["ev"] == "disk" and x["round"] == rnd:
+            hist.setdefault((x["r"], x["f"]), []).append(x)
+    bad = 0
+    for v in final["loaded"]:
+        d = disk.get((v["r"], v["f"]))
+        if d is None or d["ver"] != v["ver"]:
+            return False
+        disk_side_none = not d["meta"]
+        if v["side"] == "none" and disk_side_none:
+            continue
+        if v["side"] != "none" and not disk_side_none:
+            # both have a sidecar: equal generations are fine, different ones are not this shape
+            last = [x for x in hist.get((v["r"], v["f"]), []) if x["c"] == "sidecar"]
+            if last and last[-1]["clk"] == v["smt"]:
+                continue
+            return False
+        if v["side"] == "none":
+            return False
+        h = sorted(hist.get((v["r"], v["f"]), []), key=lambda x: x["clk"])
+        i = next((k for k, x in enumerate(h) if x["c"] == "sidecar" and x["clk"] == v["smt"]), None)
+        if i is None or i == 0 or i + 1 != len(h) - 1:
+            return False
+        before, after = h[i - 1], h[i + 1]
+        before_none = before["c"] in ("put", "replace") or (before["c"] == "sidecar" and before["side"] == "none")
+        if not (before_none and after["c"] == "sidecar" and after["side"] == "none"):
+            return False
+        bad += 1
+    return bad > 0
+
+
 def run(ctx):
     rng = random.Random(ctx.seed * 7919 + 19)
     pool = ctx.mkdir("pool")
@@ -376,6 +415,8 @@ def run(ctx):
             if why.startswith("harness:"):
                 raise vk.Inconclusive("stress harness inconsistent (%s): %s" % (why, json.dumps(r)[:1000]))
             sig = "C19:" + why if why.startswith("converge:") else "C19:stress:%s%s" % (why, ":" + e["kind"] if e["ev"] == "obs" else "")
+            if why == "converge:stale-sidecar" and transient_sidecar(e, evs):
+                sig += ":transient"
             per_sig.setdefault(sig, []).append((r, e))
         for sig, lst in sorted(per_sig.items()):
             r, e = lst[0]
